@@ -100,6 +100,9 @@ fn check_drop(src_off: usize, jit_off: Option<usize>, jit_len: usize, n: usize) 
 #[kani::stub(crate::injector_core::common::allocate_jit_memory, allocate_jit_memory_contract)]
 fn lifecycle_near() {
     fresh_world();
+    unsafe {
+        os::SNAP_ON = true;
+    }
     let src_off: usize = kani::any();
     let jit_off: usize = kani::any();
     let fake: usize = kani::any();
@@ -132,6 +135,9 @@ fn lifecycle_near() {
 #[kani::stub(crate::injector_core::common::allocate_jit_memory, allocate_jit_memory_contract)]
 fn lifecycle_bool() {
     fresh_world();
+    unsafe {
+        os::SNAP_ON = true;
+    }
     let src_off: usize = kani::any();
     let jit_off: usize = kani::any();
     let value: bool = kani::any();
@@ -172,6 +178,9 @@ fn far_alloc(_src: &FuncPtrInternal, code_size: usize) -> *mut u8 {
 #[kani::stub(crate::injector_core::common::allocate_jit_memory, far_alloc)]
 fn lifecycle_far() {
     fresh_world();
+    unsafe {
+        os::SNAP_ON = true;
+    }
     let src_off: usize = kani::any();
     let fake: usize = kani::any();
     kani::assume(src_off <= A - 16);
